@@ -1,4 +1,6 @@
 import Hertz.Proofs.PathSpec
+import Hertz.Proofs.PathRef
+import Hertz.Proofs.CleanPath
 /-!
 # C07 — normalised request paths cannot climb out of the root
 
@@ -13,10 +15,23 @@ last — first in byte form (`normalize_bytes`), then as the segment predicate o
 (`normalize_contained`).  The third loop's termination is part of the result (`dds_loop_terminates`:
 `length` iterations always suffice).
 
-Not proved (TODO-OPEN, decided by the spec step of the check on every explored case instead):
-* `normalizePath src = Spec.normalize src` (equality with "decode once then resolve with a stack");
-* `Spec.contained (cleanPath p)` for `utils.CleanPath` (model `cleanPath` is compared with the code and
-  the predicate is evaluated on the implementation's output).
+Also proved for **every** byte string (no length bound, no well-formedness hypothesis):
+* `normalize_eq_reference`: `normalizePath src = Spec.normalize src` — the four cutting loops compute
+  exactly "percent-decode once, make absolute, resolve the segments left to right with a stack"
+  (`Hertz.Proofs.PathRef`, namespace `Hertz.PathSeg`: each loop is described on the list of slash-free segments, the stack
+  machine gives the same answer before and after each loop, and the last step lands on its answer);
+  hence `reference_normalize_contained`;
+* `cleanPath_contained`: `Spec.contained (cleanPath p)` for the model of `utils.CleanPath`, for every
+  `p` (absolute or not, empty included) — exactly the predicate the driver evaluates on the
+  implementation's output of the `cleanpath` op (`Hertz.Proofs.CleanPath`: between two segments the
+  output buffer is `/` or `/s1/…/sn` with every `si` non-empty, slash-free, not `.`, not `..`).
+
+TODO-OPEN: nothing of the two statements that used to be listed here remains open.  What these theorems
+do not cover (unchanged): they are about the Lean models; that `normalizePath`/`cleanPath` are the Go
+functions is the correspondence check's job (the spec step still evaluates `contained` and the equality
+with `Spec.normalize` on the implementation's output of every case).  The Windows branch of
+`normalizePath` (`filepath.Separator == '\'`) is not modelled.  No functional reference is stated
+for `CleanPath` (only containment).
 -/
 namespace Hertz.Props.C07
 open Hertz
@@ -40,6 +55,32 @@ theorem dds_loop_terminates (b : Bytes) : ¬ DDS <:+: loopDDS b.length b :=
 theorem reference_contained (segs : List Bytes) (h : segs ≠ []) :
     Spec.segsContained (Spec.resolve [] segs) = true :=
   resolve_good [] segs h (by simp)
+
+/-- `normalizePath` is the reference "decode once, then resolve with a stack", on every input. -/
+theorem normalize_eq_reference (src : Bytes) : normalizePath src = Spec.normalize src :=
+  PathSeg.normalizePath_eq_reference src
+
+/-- so the reference itself only yields contained paths (now a corollary, for every request target) -/
+theorem reference_normalize_contained (src : Bytes) : Spec.contained (Spec.normalize src) = true := by
+  rw [← PathSeg.normalizePath_eq_reference]; exact normalize_contained src
+
+/-- sanity for `normalize_eq_reference` (no hypothesis to satisfy): on `a/%2e%2e/../%2fb/./c/..`
+both sides are `/b/` (the input is relative, climbs above the root twice and hides a slash in `%2f`). -/
+example : normalizePath [97, 47, 37, 50, 101, 37, 50, 101, 47, 46, 46, 47, 37, 50, 102, 98, 47, 46, 47, 99, 47, 46, 46]
+      = [47, 98, 47] ∧
+    Spec.normalize [97, 47, 37, 50, 101, 37, 50, 101, 47, 46, 46, 47, 37, 50, 102, 98, 47, 46, 47, 99, 47, 46, 46]
+      = [47, 98, 47] := by decide +kernel
+
+/-- `utils.CleanPath` (model) cannot climb out of the root: for every input the result starts with
+`/`, has no `..` segment and no empty or `.` segment except possibly the last. This is the predicate
+the driver applies to the output of the `cleanpath` op, with no condition on the input. -/
+theorem cleanPath_contained (p : Bytes) : Spec.contained (cleanPath p) = true :=
+  PathSeg.cleanPath_is_contained p
+
+/-- sanity for `cleanPath_contained` (no hypothesis to satisfy): `a/../../b/./c//..//d/.` (relative,
+climbing above the root) is cleaned to `/b/d/`, and `../..` to `/`. -/
+example : cleanPath [97, 47, 46, 46, 47, 46, 46, 47, 98, 47, 46, 47, 99, 47, 47, 46, 46, 47, 47, 100, 47, 46]
+      = [47, 98, 47, 100, 47] ∧ cleanPath [46, 46, 47, 46, 46] = [47] := by decide +kernel
 
 /-- non-vacuity / sanity: `/a/%2e%2e/%2E%2e/x/./y//..` normalises to `/x/`. -/
 example : normalizePath [47, 97, 47, 37, 50, 101, 37, 50, 101, 47, 37, 50, 69, 37, 50, 101, 47, 120, 47, 46, 47, 121, 47, 47, 46, 46]
